@@ -156,26 +156,27 @@ theorem bItems_congr (env : VEnv) (stack : List NodeId) (n : Node) {xs ys : List
   unfold bItems
   simp only [e1, e2, e3, hl]
 
-theorem bContains_congr (stack : List NodeId) (n : Node) {xs ys : List GoVal} (h : All₂ (RecEq rec) xs ys) (anns : Anns) :
-    bContains rec stack n xs anns = bContains rec stack n ys anns := by
+theorem bContains_congr (d : Draft) (stack : List NodeId) (n : Node) {xs ys : List GoVal} (h : All₂ (RecEq rec) xs ys)
+    (anns : Anns) : bContains d rec stack n xs anns = bContains d rec stack n ys anns := by
   unfold bContains
   simp only [containsLoop_congr stack _ xs ys h]
 
-theorem bArrayLimits_congr (n : Node) {xs ys : List GoVal} (hl : xs.length = ys.length) (cnt : Nat) :
-    bArrayLimits n xs cnt = bArrayLimits n ys cnt := by
+theorem bArrayLimits_congr (d : Draft) (n : Node) {xs ys : List GoVal} (hl : xs.length = ys.length) (cnt : Nat) :
+    bArrayLimits d n xs cnt = bArrayLimits d n ys cnt := by
   unfold bArrayLimits
   simp only [hl]
 
-theorem bUnevaluatedItems_congr (stack : List NodeId) (n : Node) {xs ys : List GoVal} (h : All₂ (RecEq rec) xs ys)
-    (anns : Anns) : bUnevaluatedItems rec stack n xs anns = bUnevaluatedItems rec stack n ys anns := by
+theorem bUnevaluatedItems_congr (d : Draft) (stack : List NodeId) (n : Node) {xs ys : List GoVal}
+    (h : All₂ (RecEq rec) xs ys) (anns : Anns) :
+    bUnevaluatedItems d rec stack n xs anns = bUnevaluatedItems d rec stack n ys anns := by
   unfold bUnevaluatedItems
   simp only [unevalItemsLoop_congr stack _ anns xs ys h]
 
 theorem bArray_list_congr (env : VEnv) (stack : List NodeId) (n : Node) {xs ys : List GoVal} (h : All₂ (RecEq rec) xs ys)
     (hu : uniqueItems env.hash xs = uniqueItems env.hash ys) (anns : Anns) :
     bArray env rec stack n (.list xs) anns = bArray env rec stack n (.list ys) anns := by
-  simp only [bArray, bItems_congr env stack n h, bContains_congr stack n h, bArrayLimits_congr n h.length,
-    bUnevaluatedItems_congr stack n h, bUnique, hu]
+  simp only [bArray, bItems_congr env stack n h, bContains_congr env.draft stack n h, bArrayLimits_congr env.draft n h.length,
+    bUnevaluatedItems_congr env.draft stack n h, bUnique, hu]
 
 /-! ## objects -/
 
@@ -312,9 +313,9 @@ theorem bDependencies_congr (env : VEnv) (stack : List NodeId) (n : Node) {x y :
   unfold bDependencies
   simp only [depRequiredLoop_congr h, depSchemasLoop_congr stack hxy h]
 
-theorem bUnevaluatedProps_congr (stack : List NodeId) (n : Node) {kvs1 kvs2 : List (String × GoVal)}
+theorem bUnevaluatedProps_congr (d : Draft) (stack : List NodeId) (n : Node) {kvs1 kvs2 : List (String × GoVal)}
     (h : All₂ (KV rec) kvs1 kvs2) (anns : Anns) :
-    bUnevaluatedProps rec stack n kvs1 anns = bUnevaluatedProps rec stack n kvs2 anns := by
+    bUnevaluatedProps d rec stack n kvs1 anns = bUnevaluatedProps d rec stack n kvs2 anns := by
   unfold bUnevaluatedProps
   simp only [unevalPropsLoop_congr stack _ anns kvs1 kvs2 h]
 
@@ -323,7 +324,7 @@ theorem bObject_map_congr (env : VEnv) (stack : List NodeId) (n : Node) (info : 
     (hxy : RecEq rec (.map kvs1) (.map kvs2)) (anns : Anns) :
     bObject env rec stack n info (.map kvs1) anns = bObject env rec stack n info (.map kvs2) anns := by
   simp only [bObject, bProps_congr env stack n info h, propertyNamesLoop_congr stack _ kvs1 kvs2 h,
-    bObjectLimits_congr n info h, bDependencies_congr env stack n hxy h, bUnevaluatedProps_congr stack n h]
+    bObjectLimits_congr n info h, bDependencies_congr env stack n hxy h, bUnevaluatedProps_congr env.draft stack n h]
 
 end
 
